@@ -228,7 +228,7 @@ theorem apply_shrinks (db : DB) (q : Sql) (db' : DB) (r : Res) (h : db.apply q =
       simp only [Prod.mk.injEq, Option.some.injEq] at h; rw [← h.1]
       unfold Raw.release at hr
       split at hr
-      · simp only [Option.some.injEq] at hr; rw [← hr]; exact shrinks_of_eq rfl rfl rfl rfl rfl
+      · simp only [Option.some.injEq] at hr; rw [← hr]; split <;> exact shrinks_of_eq rfl rfl rfl rfl rfl
       · simp at hr
     · simp at h
 
@@ -265,23 +265,27 @@ theorem returned_clean (db : DB) (hw : db.raw.working = db.committed) (hs : db.r
     | true => simp [hi (Or.inr hu)]
 
 /-- reset-on-return (rollback or commit) always leaves the pool clean … -/
-theorem checkin_clean_reset (db : DB) (b : Bool) (hrs : db.reset ≠ .none) (hsk : db.skipAc = false)
+theorem checkin_clean_gen (db : DB) (b : Bool) (hrs : db.reset ≠ .none)
+    (hauto : db.skipsRollback = true → HeldClean db)
     (hb : b = true → HeldClean db) (hc : PoolClean db) (hi : HeldIso db) :
     PoolClean (db.checkin b) ∧ (db.checkin b).cfg = db.cfg ∧ HeldIso (db.checkin b) := by
-  have hns : db.skipsRollback = false := by simp [DB.skipsRollback, hsk]
   unfold DB.checkin
   cases hr : db.reset with
   | none => exact absurd hr hrs
   | rollback =>
     simp only []
-    cases b with
+    cases hbb : (b || db.skipsRollback) with
     | true =>
-      obtain ⟨h1, h2⟩ := hb rfl
-      simp only [Bool.true_or, if_true, Bool.false_eq_true, if_false]
+      have hcl : HeldClean db := by
+        cases hb' : b with
+        | true => exact hb hb'
+        | false => rw [hb'] at hbb; exact hauto (by simpa using hbb)
+      obtain ⟨h1, h2⟩ := hcl
+      simp only [if_true, Bool.false_eq_true, if_false]
       have hrc := returned_clean db h1 h2 hi
       refine ⟨poolClean_snoc hc rfl hrc _ rfl, rfl, heldIso_clean hrc.2.2.1 hrc.2.2.2.1⟩
     | false =>
-      simp only [hns, Bool.or_self, Bool.false_eq_true, if_false]
+      simp only [Bool.false_eq_true, if_false]
       cases hf : db.takeFault .rollback with
       | mk o db1 =>
         have hs : Shrinks db db1 := by have := takeFault_shrinks db .rollback; rw [hf] at this; exact this
@@ -312,6 +316,12 @@ theorem checkin_clean_reset (db : DB) (b : Bool) (hrs : db.reset ≠ .none) (hsk
         have hrc := returned_clean db1.commit rfl rfl hi1
         refine ⟨poolClean_snoc (hs.clean hc) rfl hrc _ rfl, by simp [DB.cfg, DB.commit, hs.reset, hs.skipAc],
           heldIso_clean hrc.2.2.1 hrc.2.2.2.1⟩
+
+/-- … in particular for engines without `skip_autocommit_rollback` -/
+theorem checkin_clean_reset (db : DB) (b : Bool) (hrs : db.reset ≠ .none) (hsk : db.skipAc = false)
+    (hb : b = true → HeldClean db) (hc : PoolClean db) (hi : HeldIso db) :
+    PoolClean (db.checkin b) ∧ (db.checkin b).cfg = db.cfg ∧ HeldIso (db.checkin b) :=
+  checkin_clean_gen db b hrs (fun h => by simp [DB.skipsRollback, hsk] at h) hb hc hi
 
 /-- a checkout from a clean pool sees exactly the committed rows, has no savepoints and
     the default isolation level -/
